@@ -116,6 +116,9 @@ def front(arg: dict) -> dict:
         out["rl"] = err
         return out
     out["rl"] = _strip_ftn([_lgraph(g, special) for g in grapher.get_graphs()])
+    # last step of convert(): the write handlers on these very graphs (harness/impl_writer.py, harness/decomp_writer.py)
+    from . import impl_writer
+    out["wr"] = impl_writer.write_on(arg, grapher)
     return out
 
 
